@@ -35,8 +35,8 @@ import traceback
 
 HERE = os.path.dirname(os.path.dirname(os.path.abspath(__file__)))
 ROOT = os.environ.get("VERIF_PKGCORE_ROOT", "/repo")
-EVIDENCE_DIR = os.path.join(HERE, "evidence")
-REPLAY_DIR = os.path.join(HERE, "replays")
+EVIDENCE_DIR = os.environ.get("VERIF_EVIDENCE_DIR") or os.path.join(HERE, "evidence")
+REPLAY_DIR = os.environ.get("VERIF_REPLAY_DIR") or os.path.join(HERE, "replays")
 FINDINGS = os.path.join(HERE, "known_findings.json")
 MAX_VIOL_PER_TASK = 40
 MAX_REPORTED = 25
